@@ -60,7 +60,9 @@ APPROX = {
     "position_gfa1": r"",
     "optional_integer": r"\+[0-9]+",
     "custom_record_type": r"[HSLCPEFGOU#]",
-    "alignment_gfa2": r"[0-9]+",                      # a single-number trace is grammatical but indistinguishable from a malformed CIGAR
+    # a single-number trace is grammatical but indistinguishable from a malformed CIGAR; the GFA2 grammar writes <int> as {-}[0-9]+, so that a
+    # trace element "-0" is an integer of value 0: whether it is a valid trace spacing is not pinned (gfapy accepts it, and refuses -1)
+    "alignment_gfa2": r"[0-9]+|(?:[0-9]+,)*-0+(?:,(?:[0-9]+|-0+))*",
 }
 
 FIELD_ALPHABET_NOTE = "document fields never contain TAB or NEWLINE (the readers split on them)"
